@@ -41,9 +41,11 @@ import "time"
 //@   ensures !TimeFromTime64(Time64FromTime(t), t0).After(TimeFromTime64(Time64FromTime(u), t0))
 
 //@ func ClockOffset
+//@   inline
 //@   ensures nowrap: -4611686018427387904 < t1.Sub(t0) && t1.Sub(t0) < 4611686018427387904 && -4611686018427387904 < t2.Sub(t3) && t2.Sub(t3) < 4611686018427387904 ==> mathint(result) == (mathint(t1.Sub(t0))+mathint(t2.Sub(t3)))/2
 
 //@ func RoundTripDelay
+//@   inline
 //@   ensures nowrap: -4611686018427387904 < t3.Sub(t0) && t3.Sub(t0) < 4611686018427387904 && -4611686018427387904 < t2.Sub(t1) && t2.Sub(t1) < 4611686018427387904 ==> mathint(result) == mathint(t3.Sub(t0))-mathint(t2.Sub(t1))
 
 // Half-round-trip bound: a server whose clock is theta ahead of the client's, forward delay d1,
